@@ -145,7 +145,11 @@ class Replay:
                 elif op == 'extend':
                     view.extend(batch)
                 elif op == 'iadd':
-                    if view.__iadd__(batch) is not view:
+                    # `parent.view += batch` as the language executes it: read the attribute, __iadd__, assign it back
+                    tmp = getattr(self.parent, vname)
+                    tmp = tmp.__iadd__(batch)
+                    setattr(self.parent, vname, tmp)
+                    if tmp is not view or getattr(self.parent, vname) is not view and kind != 'raw':
                         raise RuntimeError('__iadd__ does not return the view')
                 elif op == 'insert':
                     view.insert(args['i'], batch[0])
